@@ -17,7 +17,7 @@ import (
 // ordered subscription, nacked and pulled again; id, JSON value, attributes and
 // key must be what Publish was given, on first delivery and on redelivery.
 func init() {
-	extraAfterHist["C02"] = func(t *testing.T, tier string) (map[string]any, []report.Viol, error) {
+	addExtra("C02", func(t *testing.T, tier string) (map[string]any, []report.Viol, error) {
 		var viols []report.Viol
 		n := 0
 		var ferr error
@@ -120,7 +120,7 @@ func init() {
 			}
 		})
 		return map[string]any{"payload_corpus_deliveries_compared": n, "payload_corpus_size": len(c19Corpus())}, viols, ferr
-	}
+	})
 }
 
 func sameAttrs(a, b map[string]string) bool {
